@@ -319,6 +319,25 @@ fn main() {
             cases::write_lines(&out, &lines);
             println!("cases {}", lines.len());
         }
+        Some("trace-dwarf") => {
+            let inputs = cases::resolve_inputs(&get("inputs", "gen:100"), seed);
+            let lines: Vec<_> = inputs
+                .par_iter()
+                .flat_map(|i| {
+                    let mut v = vec![];
+                    for (ver, span) in [(4u16, false), (5, false), (4, true), (5, true)] {
+                        for variant in ["plain", "gc", "edited"] {
+                            if let Some(c) = cases::dwarf_case(i, ver, span, variant) {
+                                v.push(c);
+                            }
+                        }
+                    }
+                    v
+                })
+                .collect();
+            cases::write_lines(&out, &lines);
+            println!("cases {}", lines.len());
+        }
         Some("digests") => {
             // one line per input: id and digest of  parse ; emit  with the default switches (separate process per call)
             let inputs = cases::resolve_inputs(&get("inputs", "gen:100"), seed);
